@@ -522,6 +522,26 @@ def facts_check(r):
     r.case(dict(fact="tables"), nontrivial=False, tags=["stream:facts"])
 
 
+def gc_wraparound_observation(r):
+    """informational (never a failure): GREAT_CIRCLE is not monotone along a line that spans more than half the
+    globe, so the sweep forgets the target on the way and cells within max_distance 'around the back' stay NaN.
+    Outside the domain the single-target theorem / oracle cover (planar metrics); recorded in the evidence."""
+    xs = [float(x) for x in range(-170, 171, 10)]
+    c = dict(H=1, W=len(xs), vals=[["1"] + ["0"] * (len(xs) - 1)], dtype="float64", tv=[], xs=[tok(x) for x in xs],
+             ys=["0"], sx=0, sy=0, u=1.0, metric="GREAT_CIRCLE", metric_model=None, max=dict(kind="raw", k=3.0e6))
+    x = run_real([c], jit=False, nproc=1)[0]
+    if x["status"] != "ok":
+        return
+    P = [untok(t) for t in x["proximity"]["v"][0]]
+    missed = [(j, round(gc_dist(xs[0], xs[j], 0.0, 0.0))) for j in range(len(xs))
+              if P[j] != P[j] and gc_dist(xs[0], xs[j], 0.0, 0.0) <= 3.0e6]
+    r.extra["observations"] = [dict(
+        what="GREAT_CIRCLE, one target at lon -170, 1x35 raster lon -170..170, max_distance 3000 km: columns "
+             "whose true distance is within max_distance but which are NaN (the path along the line leaves the 2*max^2 range)",
+        columns_and_true_distance_m=missed, oracle_still_sound=oracle(c, x) is None)]
+    r.case(c, nontrivial=False, tags=["stream:observation"])
+
+
 def small_tables(r, rng, thorough):
     """interp: every target layout on every grid with H,W <= 3, every table cell size, both metrics, several maxima"""
     cases = []
@@ -542,9 +562,13 @@ def small_tables(r, rng, thorough):
 
 
 def run(r, scale=1):
+    import time
     thorough = r.tier == "thorough"
     nproc = int(os.environ.get("C06_PROCS", "14"))
     rng = r.rng
+    timing = r.extra.setdefault("timing_s", {})
+    timing["proofs_done_at"] = round(time.time() - r.t0, 1)
+    t_phase = time.time()
     r.rule = ("rasters 1x1..12x12 with unique target values (12% repeated), densities 0..60%, default and explicit "
               "target_values (incl. absent values / NaN), NaN/inf cells, 6 dtypes, coordinate unit in {1,1/2,2,1/4}, steps "
               "{1,2,3} per axis, ascending/descending, EUCLIDEAN/MANHATTAN/unknown metric strings, max_distance in "
@@ -558,7 +582,7 @@ def run(r, scale=1):
         res = run_real(corpus, jit=True, nproc=nproc)
         evaluate(r, "corpus", corpus, res)
     # jit stream
-    n_jit = int({"quick": 64, "thorough": 260}[r.tier] * scale)
+    n_jit = int({"quick": 56, "thorough": 260}[r.tier] * scale)
     jit_cases = [gen_case(rng, small=(i % 4 == 0)) for i in range(n_jit)]
     n_gc = int({"quick": 8, "thorough": 40}[r.tier] * scale)
     gc_cases = [gen_gc_case(rng) for _ in range(n_gc)]
@@ -571,6 +595,10 @@ def run(r, scale=1):
     res = run_real(jit_cases + gc_cases, jit=True, nproc=nproc)
     evaluate(r, "jit", jit_cases, res[:len(jit_cases)])
     evaluate(r, "gc", gc_cases, res[len(jit_cases):], use_model=False)
+    gc_wraparound_observation(r)
+    timing["jit_stream"] = round(time.time() - t_phase, 1)
+    timing["jit_calls"] = 3 * (len(jit_cases) + len(gc_cases))
+    t_phase = time.time()
     # interpreted stream: many more cases
     n_int = int({"quick": 1500, "thorough": 14000}[r.tier] * scale)
     int_cases = [gen_case(rng, small=(i % 5 == 0)) for i in range(n_int)]
@@ -580,6 +608,8 @@ def run(r, scale=1):
     evaluate(r, "interp", int_cases, res[:n_int])
     evaluate(r, "interp-gc", int_gc, res[n_int:n_int + len(int_gc)], use_model=False)
     evaluate(r, "small", small, res[n_int + len(int_gc):])
+    timing["interp_streams"] = round(time.time() - t_phase, 1)
+    timing["interp_calls"] = 3 * (n_int + len(int_gc) + len(small))
     shrink_failures(r, nproc)
     if thorough:
         r.exhaustive = ("every target layout on every grid with H,W<=3: 682 rasters on the compiled code (unit cells, "
